@@ -1380,3 +1380,13 @@ func clipStr(s string) string {
 	}
 	return s
 }
+
+// DBIDs returns the numbers of all dbs the model has touched, sorted (never iterate sv.DBs directly in oracles).
+func (sv *Server) DBIDs() []int {
+	var out []int
+	for i := range sv.DBs {
+		out = append(out, i)
+	}
+	sort.Ints(out)
+	return out
+}
